@@ -53,6 +53,27 @@ func runRetryRule(c *Ctx, rule string, scope func(fn *ssa.Function) bool, min in
 				if !exits {
 					bad = append(bad, calleeName(call)+" at "+p.Pos(call.Pos()))
 				}
+				// the test that gives up measures the buffer that failed, not the
+				// one just allocated for the next attempt
+				for b := range reach {
+					if len(b.Instrs) == 0 {
+						continue
+					}
+					ifi, ok := b.Instrs[len(b.Instrs)-1].(*ssa.If)
+					if !ok {
+						continue
+					}
+					for _, m := range measuredSlices(ifi.Cond, 0) {
+						mk, isMake := m.(*ssa.MakeSlice)
+						if !isMake || !reach[mk.Block()] {
+							continue
+						}
+						if flowsToArgOf(mk, call) {
+							c.Fail(rule, FuncKey(fn)+": the give-up test of a grow-and-retry loop measures the buffer that failed", ifi.Cond.Pos(),
+								"in %s the test that abandons the retry of %s measures the buffer allocated for the next attempt (%s) instead of the one that just failed: the largest size the bound allows is never tried, and valid inputs that need it fail to decode", FuncKey(fn), calleeName(call), p.Pos(mk.Pos()))
+						}
+					}
+				}
 			}
 		})
 		if examined == 0 {
@@ -67,4 +88,54 @@ func runRetryRule(c *Ctx, rule string, scope func(fn *ssa.Function) bool, min in
 	c.Stats[rule+".functions_with_fallible_calls_in_loops"] = n
 	c.Stats[rule+".fallible_calls_in_loops"] = loops
 	c.Min(rule, min)
+}
+
+// measuredSlices: the slices whose len or cap the condition reads.
+func measuredSlices(v ssa.Value, depth int) []ssa.Value {
+	if v == nil || depth > 6 {
+		return nil
+	}
+	switch x := v.(type) {
+	case *ssa.BinOp:
+		return append(measuredSlices(x.X, depth+1), measuredSlices(x.Y, depth+1)...)
+	case *ssa.UnOp:
+		return measuredSlices(x.X, depth+1)
+	case *ssa.Convert:
+		return measuredSlices(x.X, depth+1)
+	case *ssa.Call:
+		if bi, ok := x.Call.Value.(*ssa.Builtin); ok && (bi.Name() == "len" || bi.Name() == "cap") {
+			return []ssa.Value{x.Call.Args[0]}
+		}
+	}
+	return nil
+}
+
+// flowsToArgOf: v reaches an argument of the call through phis and re-slices.
+func flowsToArgOf(v ssa.Value, call ssa.CallInstruction) bool {
+	seen := map[ssa.Value]bool{}
+	var walk func(x ssa.Value) bool
+	walk = func(x ssa.Value) bool {
+		if seen[x] || x.Referrers() == nil {
+			return false
+		}
+		seen[x] = true
+		for _, r := range *x.Referrers() {
+			switch y := r.(type) {
+			case *ssa.Phi:
+				if walk(y) {
+					return true
+				}
+			case *ssa.Slice:
+				if y.X == x && walk(y) {
+					return true
+				}
+			case ssa.CallInstruction:
+				if y == call {
+					return true
+				}
+			}
+		}
+		return false
+	}
+	return walk(v)
 }
